@@ -110,7 +110,32 @@ def run(ctx):
                         d['v'][0][3:] == [oracles_hex(x) for x in v0] and d['aff'][0][2:] == [oracles_hex(x) for x in aff])
                 if not same:
                     ctx.violation('written-before-throw', 'an output argument was modified although the call threw (%s)' % name, {'case': cases[c]})
-    # ---- the command line on invalid configurations
+    # ---- an out-membership container with the right rows and columns but a tube count other than 1 (built through the inherited three-argument
+    #      constructor): its SIZE is not N * K, the request is invalid, nothing may be touched
+    import os
+    tube_cases = [gen.gen_e2e(rng.fork('tb%d' % k), 880000 + k, maxit_max=4, r_max=2, prior='zero', nmax=4)[0] for k in range(ctx.budget(12, 200))]
+    for tubes in ('0', '2', '3'):
+        os.environ['VERIF_U_TUBES'] = tubes
+        try:
+            rest = ctx.component('K-VALID(out-membership with %s tubes, implementation only)' % tubes, tube_cases, model=False)
+        finally:
+            del os.environ['VERIF_U_TUBES']
+        if not rest:
+            continue
+        for k, line in enumerate(tube_cases):
+            tr = rest['impl'].get('E %d' % (880000 + k))
+            if not tr:
+                continue
+            d = oracles.trace_dict(tr)
+            ut = d.get('@utubes', [['unsupported']])[0]
+            if ut[0] == 'unsupported':
+                continue
+            n_eval += 1
+            t = line.split()
+            if d['status'][0][0] == 'OK':
+                ctx.violation('validation', 'an out-membership container of %s x %s x %s (size %s, not N * K) is accepted and the run proceeds' % (d['u'][0][0] if 'u' in d else '?', d['u'][0][1] if 'u' in d else '?', tubes, ut[1]),
+                              {'case': line, 'how': 'run the harness on this case with VERIF_U_TUBES=%s' % tubes})
+                break
     cli_n = 0
     wd = vf.workdir()
     adj = os.path.join(wd, 'adj.dat')
